@@ -21,7 +21,16 @@ FT = {
     "N": ("Leaf<'gc>", True, False),
     "P": ("Plain", False, True),
     "B": ("Box<(i32, Gc<'gc, u8>)>", True, False),
+    # fields that mention the derived type itself ({SELF} is the shape's own name) with the pointer that makes the
+    # recursion legal hidden from the macro: behind a type alias, inside a generic wrapper, inside a container
+    # (seed C15-e left such fields out of the NEEDS_TRACE disjunction)
+    "R1": ("Option<Ptr<'gc, {SELF}<'gc>>>", True, False),
+    "R2": ("Link<'gc, {SELF}<'gc>>", True, False),
+    "R3": ("Gc<'gc, {SELF}<'gc>>", True, False),
+    "R4": ("Vec<Ptr<'gc, {SELF}<'gc>>>", True, False),
+    "R5": ("Option<GcWeak<'gc, {SELF}<'gc>>>", True, False),
 }
+SELF_STANDIN = "Leaf"      # the field-type constants of the {SELF} codes are evaluated with this type in place of the shape
 
 
 class Shape:
@@ -68,7 +77,7 @@ class Shape:
         out = ["#[derive(Collect)]", "#[collect(%s)]" % ", ".join(attrs)]
 
         def fld(c, rs, named, i):
-            ty = FT[c][0] if c in FT else c
+            ty = (FT[c][0] if c in FT else c).replace("{SELF}", self.name)
             a = "#[collect(require_static)] " if rs else ""
             return "%s%s%s" % (a, ("f%d: " % i) if named else "", ty)
         if self.kind == "struct":
@@ -171,6 +180,13 @@ def shapes(tier="quick"):
         out.append(Shape(name(), "struct", [("", "named", [("T", True), ("U", False), ("G", False)])], generics="<'gc, T, U>", bound=bound))
         out.append(Shape(name(), "enum", [("A", "tuple", [("I", False), ("T", True)]), ("B", "named", [("U", False), ("W", False)])],
                          generics="<'gc, T, U>", bound=bound))
+    # self-referential types: the recursive field is the only one that needs tracing / sits next to plain and pointer fields
+    for code in ("R1", "R2", "R3", "R4", "R5"):
+        out.append(Shape(name(), "struct", [("", "named", [(code, False), ("I", False)])]))
+        out.append(Shape(name(), "enum", [("A", "tuple", [("I", False), (code, False)]), ("B", "unit", [])]))
+    out.append(Shape(name(), "struct", [("", "tuple", [("G", False), ("R1", False)])]))
+    out.append(Shape(name(), "struct", [("", "named", [("S", True), ("R2", False)])]))
+    out.append(Shape(name(), "enum", [("A", "named", [("R4", False)]), ("B", "tuple", [("R5", False), ("I", False)]), ("C", "unit", [])]))
     if tier != "quick":
         # every subset of positions marked require_static, 1..4 fields, pointer-bearing fields elsewhere
         for k in (1, 2, 3, 4):
@@ -220,6 +236,12 @@ pub struct Leaf<'gc> { p: Gc<'gc, u8> }
 #[collect(require_static)]
 pub struct Plain { x: u64 }
 
+pub type Ptr<'gc, T> = Gc<'gc, gc_arena::lock::RefLock<T>>;
+
+#[derive(Collect)]
+#[collect(no_drop)]
+pub struct Link<'gc, T: 'gc>(Option<Gc<'gc, T>>);
+
 '''
 
 
@@ -261,7 +283,8 @@ def build(tier="quick", repo=None):
             with open(os.path.join(crate, "src", "lib.rs"), "w") as f:
                 f.write(PRELUDE)
                 for c, (ty, _, _) in FT.items():
-                    f.write("pub const NT_%s: bool = <%s as Collect<'static>>::NEEDS_TRACE;\n" % (c, ty.replace("'gc", "'static")))
+                    f.write("pub const NT_%s: bool = <%s as Collect<'static>>::NEEDS_TRACE;\n" % (
+                        c, ty.replace("{SELF}", SELF_STANDIN).replace("'gc", "'static")))
                 f.write("\n")
                 for s in shp:
                     f.write(s.render() + "\n\n")
